@@ -79,11 +79,17 @@ pub fn encoding(data: &[u8], hint: Option<String>) -> Option<&'static Encoding> 
     Encoding::for_label(label.as_bytes())
 }
 
-pub(crate) fn decode(data: &[u8], hint: Option<String>) -> String {
+/// Decode the data; `None` if it holds a byte sequence that is not legal in
+/// its encoding (a fatal error in XML, not something to paper over with
+/// U+FFFD, which is a name character).
+pub(crate) fn decode(data: &[u8], hint: Option<String>) -> Option<String> {
     // fall back to UTF-8 if no known encoding can be determined
     let enc = encoding(data, hint).unwrap_or(encoding_rs::UTF_8);
-    let (s, _, _) = enc.decode(data);
-    s.into_owned()
+    let (s, _, had_errors) = enc.decode(data);
+    if had_errors {
+        return None;
+    }
+    Some(s.into_owned())
 }
 
 #[cfg(test)]
